@@ -10,7 +10,63 @@ from .c02 import field_contracts
 E = K.E
 
 
-def setext_battery(seed):
+def solve_univariate(poly, var, env):
+    """roots mod p of poly seen as a polynomial of degree <= 2 in `var`, other variables fixed by env"""
+    from sym.poly import Poly, var_index
+    P = ref.P
+    sub = {k: Poly.const(v) for k, v in env.items() if k != var}
+    q = poly.subs(sub)
+    vi = var_index(var)
+    co = {}
+    for m, c in q.t.items():
+        e = 0
+        for v_, ex_ in m:
+            if v_ == vi:
+                e = ex_
+            else:
+                return []
+        co[e] = (co.get(e, 0) + c) % P
+    if any(e > 2 for e in co):
+        return []
+    a, b, c = co.get(2, 0), co.get(1, 0), co.get(0, 0)
+    if a == 0:
+        if b == 0:
+            return []
+        return [(-c) * ref.inv(b) % P]
+    disc = (b * b - 4 * a * c) % P
+    r = ref.sqrt(disc)
+    if r is None:
+        return []
+    i2a = ref.inv(2 * a)
+    return sorted({(-b + r) * i2a % P, (-b - r) * i2a % P})
+
+
+def algebraic_witnesses(accept_polys, dval, seed):
+    """quadruples that satisfy the tests an accepting path actually performs (polynomials vanishing mod p) obtained by
+    solving for one coordinate with the other three taken from valid points / small values"""
+    import random
+    rng = random.Random(seed)
+    P = ref.P
+    out = []
+    bases = []
+    for (x, y) in ptreplay.bank(rng, 4)[-6:] + [(0, 1), ref.BASE]:
+        z = rng.choice([1, 2, rng.randrange(1, P)])
+        bases.append({"X": x * z % P, "Y": y * z % P, "Z": z, "T": x * y * z % P, "d": dval})
+    bases.append({"X": 0, "Y": 1, "Z": 1, "T": 0, "d": dval})
+    for env in bases:
+        for var in ("T", "Z", "X", "Y"):
+            if not accept_polys:
+                continue
+            roots = solve_univariate(accept_polys[0], var, env)
+            for r_ in roots:
+                cand = dict(env)
+                cand[var] = r_
+                if all(g.eval_mod(cand, P) == 0 for g in accept_polys):
+                    out.append((cand["X"], cand["Y"], cand["Z"], cand["T"]))
+    return out
+
+
+def setext_battery(seed, extra=()):
     """native: accept exactly Z != 0, curve, XY = ZT; result = the same point; export round trip"""
     import random
     from sym import native
@@ -29,6 +85,8 @@ def setext_battery(seed):
         cases.append(((good[0], good[1], 0, good[3]), False))
         cases.append((((-good[0]) % P, good[1], good[2], good[3]), good[0] == 0 or good[3] == 0 and False))
         cases.append(((good[0], good[1], (-good[2]) % P, good[3]), (good[3] == 0)))   # (X,Y,-Z,T): curve holds, XY=ZT only if T=0... and XY=0
+    for c in extra:
+        cases.append((tuple(int(v) % P for v in c), None))
     ops, meta = [], []
     prior = ptreplay.mk_point(ref.BASE, rng)
     for (c, exp) in cases:
@@ -74,6 +132,18 @@ def setext_battery(seed):
     return None
 
 
+def setext_battery_with_witnesses(chk, base):
+    dv = base.global_val(E + "d")
+    dval = sum(int(l) << (51 * k) for k, l in enumerate(dv)) % ref.P
+    extra = []
+    for polys in chk.extra.get("setext_accept_polys", []):
+        try:
+            extra += algebraic_witnesses(polys, dval, chk.seed)
+        except Exception as e:
+            chk.note_inconclusive("witness search failed: %r" % (e,))
+    return setext_battery(chk.seed, extra)
+
+
 def k_setext(l1):
     chk, prog, d = l1.chk, l1.prog, l1.d
     fname = prog.find("Point).SetExtendedCoordinates")
@@ -105,6 +175,16 @@ def k_setext(l1):
         for c in p.pc:
             s.add(c)
         if accepted:
+            acc_polys = []
+            for h in p.dstate.get("hyp", []):
+                if h[0] == "eq":
+                    so2 = z3.Solver()
+                    for c in p.pc:
+                        so2.add(c)
+                    so2.add(z3.Not(h[2]))
+                    if so2.check() == z3.unsat:
+                        acc_polys.append(h[1])
+            chk.extra.setdefault("setext_accept_polys", []).append(acc_polys)
             conds = []
             conds.append(z3.Not(bz) if bz is not None else z3.BoolVal(False))     # Z != 0 must have been established
             conds.append(bc if bc is not None else z3.BoolVal(False))
@@ -162,9 +242,11 @@ def run(chk):
     l1 = L1m.L1(base, chk)
     items += [("SetExtendedCoordinates", lambda: k_setext(l1)), ("ExtendedCoordinates", lambda: k_export(l1))]
     run_kernels(chk, items)
-    L1m.settle(chk, [o for o in chk.obs if "ExtendedCoordinates" in o.name], lambda: setext_battery(chk.seed), "Point.SetExtendedCoordinates")
+    L1m.settle(chk, [o for o in chk.obs if "ExtendedCoordinates" in o.name], lambda: setext_battery_with_witnesses(chk, base), "Point.SetExtendedCoordinates")
+    chk.extra.pop("setext_accept_polys", None)
     chk.samples = [o.j() for o in chk.obs if "ExtendedCoordinates" in o.name][:5]
 
 
 def safety_net(chk):
-    return setext_battery(chk.seed)
+    from sym import ir
+    return setext_battery_with_witnesses(chk, K.Base(ir.load()))
